@@ -308,8 +308,12 @@ def run(ctx):
     kv_calls = [bb for (bb, t) in gb.calls() if callee_name(t) == kv]
     sug_calls = [bb for (bb, t) in gb.calls() if callee_name(t) in prog.fns and callee_name(t) != kv and prog.fns[callee_name(t)].get("output") == builders.SUGG
                  and "&mut" in (prog.fns[callee_name(t)].get("inputs") or [""])[0]]
-    if kv_calls and all(any(gb.postdominates(c, k) for c in sug_calls) for k in kv_calls):
-        r3.ok("rebuilt", "the suggestion is rebuilt from the composed text after every processed key")
+    _, ctor_names_ = builders.suggestion_ctor_sites(prog)
+    empty_ctors_ = {k for k, v in ctor_names_.items() if v == "empty"}
+    buf_ = roles[fx]["buffer"]
+    flag_ = prog.method_impl(fx, "ongoing_input_session") if buf_ in roles[fx].get("session_fields", ()) else None
+    if kv_calls and all(common.passes_or_ends_empty(prog, gb, k, sug_calls, buf_, flag_, builders.SUGG, empty_ctors_)[0] for k in kv_calls):
+        r3.ok("rebuilt", "the suggestion is rebuilt from the composed text after every processed key (or nothing is composed and the empty suggestion is returned)")
     else:
         r3.violation("rebuilt", "a processed key can return a suggestion that was not rebuilt from the new composed text (e.g. after a two-part sign fusion)",
                      common.fn_line(prog, gs))
